@@ -1,8 +1,10 @@
-(** C21 property theorems.  [run eager reqs st0 ops] is the channel model of Model.v on ANY request stream [reqs]
+(** C21 property theorems.  [run eager sync reqs st0 ops] is the channel model of Model.v on ANY request stream [reqs]
     (any number of pipelined requests, any lengths, any process() scripts, persistent or "Connection: close"), ANY
     eager-read limit and ANY history [ops] (bytes arriving in any cuts, transport pause / resume, connection loss,
     the application calling notifyFinish / write / finish / registerProducer / unregisterProducer on any request at
-    any time); [snd] of it is the event log, one list per operation.  The model has the repaired notifyFinish
+    any time, every notifyFinish Deferred carrying ANY reaction = calls its callback/errback makes synchronously when
+    it fires: finish, write, notifyFinish, and dropping the connection on a transport [sync] that reports the loss at
+    once); [snd] of it is the event log, one list per operation.  The model has the repaired notifyFinish
     (fixes/C21-notifyfinish-after-completion.patch).  EProcess i = request i handed to the application;
     EHead / EWrite / EEnd i = head, body write, terminator of response i on the transport (EEnd = response
     finished); ENotify i d / EFired i d ok = the d-th notifyFinish Deferred of request i handed out / fired with
@@ -14,21 +16,21 @@ Import ListNotations.
 (** every log is accepted by the protocol monitor of Model.v (one open request, wire bytes only for it and in
     order, Deferreds fire only once, only after completion, with the matching value, and none is left waiting at
     the end of any operation) *)
-Theorem log_accepted_by_protocol_monitor : forall (eager : N) (reqs : list reqspec) (ops : list op),
-  mon_ops mon0 (snd (run eager reqs st0 ops)) <> None.
+Theorem log_accepted_by_protocol_monitor : forall (eager : N) (sync : bool) (reqs : list reqspec) (ops : list op),
+  mon_ops mon0 (snd (run eager sync reqs st0 ops)) <> None.
 Proof. exact final_accepted. Qed.
 Print Assumptions log_accepted_by_protocol_monitor.
 
 (** at every point of every history at most one request is in the application (handed over and not finished) *)
-Theorem at_most_one_request_in_application : forall (eager : N) (reqs : list reqspec) (ops : list op) (A B : list ev),
-  concat (snd (run eager reqs st0 ops)) = A ++ B ->
+Theorem at_most_one_request_in_application : forall (eager : N) (sync : bool) (reqs : list reqspec) (ops : list op) (A B : list ev),
+  concat (snd (run eager sync reqs st0 ops)) = A ++ B ->
   forall i i', In (EProcess i) A -> ~ In (EEnd i) A -> In (EProcess i') A -> ~ In (EEnd i') A -> i = i'.
 Proof. exact final_one_open. Qed.
 Print Assumptions at_most_one_request_in_application.
 
 (** request j is handed over exactly after requests 0..j-1, and only when each of them has finished *)
-Theorem next_only_after_previous_finished : forall (eager : N) (reqs : list reqspec) (ops : list op) A j B,
-  concat (snd (run eager reqs st0 ops)) = A ++ EProcess j :: B ->
+Theorem next_only_after_previous_finished : forall (eager : N) (sync : bool) (reqs : list reqspec) (ops : list op) A j B,
+  concat (snd (run eager sync reqs st0 ops)) = A ++ EProcess j :: B ->
   (forall i, i < j <-> In (EProcess i) A) /\ (forall i, i < j -> In (EEnd i) A).
 Proof. exact final_next. Qed.
 Print Assumptions next_only_after_previous_finished.
@@ -36,33 +38,39 @@ Print Assumptions next_only_after_previous_finished.
 (** every byte of response i goes to the transport after request i was handed over, after ALL earlier responses
     are finished, before response i is finished; the head comes first and once: responses are on the wire in
     request order and never interleaved *)
-Theorem responses_in_request_order_not_interleaved : forall (eager : N) (reqs : list reqspec) (ops : list op) A e B i,
-  concat (snd (run eager reqs st0 ops)) = A ++ e :: B ->
+Theorem responses_in_request_order_not_interleaved : forall (eager : N) (sync : bool) (reqs : list reqspec) (ops : list op) A e B i,
+  concat (snd (run eager sync reqs st0 ops)) = A ++ e :: B ->
   e = EHead i \/ (exists j, e = EWrite i j) \/ e = EEnd i ->
   In (EProcess i) A /\ ~ In (EEnd i) A /\ (forall k, k < i -> In (EEnd k) A) /\
   (e = EHead i -> ~ In (EHead i) A) /\ (e <> EHead i -> In (EHead i) A).
 Proof. exact final_wire. Qed.
 Print Assumptions responses_in_request_order_not_interleaved.
 
+(** once the connection is gone (EGone = HTTPChannel.connectionLost) no request is handed to the application *)
+Theorem no_request_handed_over_after_connection_lost : forall (eager : N) (sync : bool) (reqs : list reqspec) (ops : list op) A j B,
+  concat (snd (run eager sync reqs st0 ops)) = A ++ EProcess j :: B -> ~ In EGone A.
+Proof. exact final_gone. Qed.
+Print Assumptions no_request_handed_over_after_connection_lost.
+
 (** every notifyFinish Deferred fires exactly once, with None if the response finished and with a failure if the
     connection was lost first: (1) never more than once, in any prefix of any history; (2) whenever one fires it
     was handed out before, has not fired before, and its request has already finished (None) / lost its connection
     (failure); (3) at the end of every operation, every Deferred handed out so far whose request has finished or
     lost its connection so far has fired (exactly once) *)
-Theorem notifyFinish_fires_exactly_once_with_None_or_failure : forall (eager : N) (reqs : list reqspec) (ops : list op),
-  (forall A B i d, concat (snd (run eager reqs st0 ops)) = A ++ B -> count_fired A i d <= 1) /\
-  (forall A i d (ok : bool) B, concat (snd (run eager reqs st0 ops)) = A ++ EFired i d ok :: B ->
+Theorem notifyFinish_fires_exactly_once_with_None_or_failure : forall (eager : N) (sync : bool) (reqs : list reqspec) (ops : list op),
+  (forall A B i d, concat (snd (run eager sync reqs st0 ops)) = A ++ B -> count_fired A i d <= 1) /\
+  (forall A i d (ok : bool) B, concat (snd (run eager sync reqs st0 ops)) = A ++ EFired i d ok :: B ->
      In (ENotify i d) A /\ (if ok then In (EEnd i) A else In (ELost i) A) /\ count_fired A i d = 0) /\
-  (forall k i d, let A := concat (firstn k (snd (run eager reqs st0 ops))) in
+  (forall k i d, let A := concat (firstn k (snd (run eager sync reqs st0 ops))) in
      In (ENotify i d) A -> In (EEnd i) A \/ In (ELost i) A -> count_fired A i d = 1).
 Proof. exact final_notify. Qed.
 Print Assumptions notifyFinish_fires_exactly_once_with_None_or_failure.
 
 (** pause / resume bookkeeping: whenever the channel is idle (no request being handled) and the transport is not
     asking it to wait, reading from the transport is not paused *)
-Theorem reading_resumed_when_idle : forall (eager : N) (reqs : list reqspec) (ops : list op),
-  s_handling (fst (run eager reqs st0 ops)) = false -> s_waiting (fst (run eager reqs st0 ops)) = false ->
-  net_paused false (concat (snd (run eager reqs st0 ops))) = false.
+Theorem reading_resumed_when_idle : forall (eager : N) (sync : bool) (reqs : list reqspec) (ops : list op),
+  s_handling (fst (run eager sync reqs st0 ops)) = false -> s_waiting (fst (run eager sync reqs st0 ops)) = false ->
+  net_paused false (concat (snd (run eager sync reqs st0 ops))) = false.
 Proof. exact final_reading. Qed.
 Print Assumptions reading_resumed_when_idle.
 
@@ -74,12 +82,12 @@ Theorem notifyFinish_after_completion_refuted_for_unrepaired_notifyFinish :
 Proof. exact pinned_notify_rejected. Qed.
 Print Assumptions notifyFinish_after_completion_refuted_for_unrepaired_notifyFinish.
 
-(** a non-trivial history: three pipelined requests in one delivery, the first finished later while the transport
-    is paused, the last with Connection: close *)
+(** a non-trivial history: three pipelined requests in one delivery on a transport that reports loss at once; the
+    first request's Deferred, when it fires, drops the connection, calls finish() and asks for another Deferred *)
 Example pipeline_example :
-  snd (run 16384 [mkQ 37 true [ANotify]; mkQ 37 true [ANotify; AWrite; AFinish]; mkQ 56 false [AFinish]] st0
-           [Data 200; App 0 AWrite; TPause; App 0 AFinish; TResume; App 0 ANotify; Lose])
+  snd (run 16384 true [mkQ 37 true [ANotify [RLose; RFinish; RNotify]]; mkQ 37 true [ANotify [RNotify]]; mkQ 56 false [AFinish]] st0
+           [Data 74; App 0 AWrite; TPause; App 0 AFinish; Data 56; App 1 AFinish])
   = [[EProcess 0; ENotify 0 0]; [EHead 0; EWrite 0 0]; [];
-     [EEnd 0; EProcess 1; ENotify 1 0; EHead 1; EWrite 1 0; EEnd 1; EFired 1 0 true; EProcess 2; EHead 2; EEnd 2; EClose;
-      EFired 0 0 true]; []; [ENotify 0 1; EFired 0 1 true]; []].
+     [EEnd 0; EProcess 1; ENotify 1 0; EFired 0 0 true; EClose; EGone; ELost 1; EFired 1 0 false; ENotify 1 1; EFired 1 1 false;
+      ENotify 0 1; EFired 0 1 true]; []; [ERaise]].
 Proof. vm_compute. reflexivity. Qed.
